@@ -181,6 +181,14 @@ func watchdog() {
 			res.Viol = append(res.Viol, h.Violation{Prop: "C09", Clause: "lock-across-store-call", Sig: "lock-held-across-store-call:" + frames,
 				Detail: "a store call is in flight on a goroutine that holds a library lock which these are waiting for (a stop call would wait as long as the store takes): " + frames})
 			res.Fatal = "lock-across-store-call"
+		} else if verdict == "process-global-wait" {
+			prop := stallProp(spec)
+			if strings.Contains(frames, "attemptAcquire") || strings.Contains(frames, "attemptPriorityTakeover") || strings.Contains(frames, "checkKeyAndReelect") {
+				prop = "C06" // an acquisition attempt that cannot go on, whatever its own store does
+			}
+			res.Viol = append(res.Viol, h.Violation{Prop: prop, Clause: "process-global-wait", Sig: "blocked-on-state-shared-across-elections:" + frames,
+				Detail: "no goroutine runnable in two dumps 2 s apart; a library goroutine of this run waits on a channel that was not made in this run (state shared by all elections of the process, held by earlier runs' unanswered store calls): " + frames})
+			res.Fatal = "process-global-wait"
 		} else if verdict == "deadlock" {
 			props := []string{stallProp(spec)}
 			if props[0] == "C11" && strings.Contains(strings.ToLower(frames), "stop") {
@@ -258,6 +266,14 @@ func classifyStall(d1, d2 string) (string, string) {
 		}
 	}
 	if len(mutexLib) == 0 {
+		// A library function of this run's bubble blocked in a channel operation that is NOT
+		// durable: the channel was not made inside the bubble, i.e. it does not belong to this
+		// election run at all - it is state shared by every election of the process (a
+		// package-level semaphore, queue, ...), here held by what earlier scenarios left behind
+		// (store calls that never return). Nothing of this run can release it.
+		if fs := globalWaiters(d1, d2); len(fs) > 0 {
+			return "process-global-wait", strings.Join(fs, ",")
+		}
 		return "stall", "no library goroutine on a mutex"
 	}
 	// A store call in flight underneath library frames (the reference store sleeps its
@@ -287,6 +303,64 @@ func classifyStall(d1, d2 string) (string, string) {
 	}
 	sortStrings(fs)
 	return "deadlock", strings.Join(dedup(fs), ",")
+}
+
+// globalWaiters: library functions that are, in both dumps, the innermost non-runtime frame of
+// a bubble goroutine blocked on a non-durable channel operation.
+func globalWaiters(d1, d2 string) []string {
+	find := func(d string) map[string]bool {
+		out := map[string]bool{}
+		for _, g := range strings.Split(d, "\n\n") {
+			lines := strings.Split(g, "\n")
+			hdr := lines[0]
+			if !strings.Contains(hdr, "synctest bubble") || strings.Contains(hdr, "(durable)") {
+				continue
+			}
+			if !strings.Contains(hdr, "[chan send") && !strings.Contains(hdr, "[chan receive") && !strings.Contains(hdr, "[select") {
+				continue
+			}
+			// innermost non-runtime frame must be a library function; the signature names the
+			// library functions of the stack, innermost first
+			var chain []string
+			innermost := true
+			for _, ln := range lines[1:] {
+				if strings.HasPrefix(ln, "\t") || strings.HasPrefix(ln, "created by") {
+					continue
+				}
+				if strings.HasPrefix(ln, "runtime.") || strings.HasPrefix(ln, "internal/") {
+					continue
+				}
+				i := strings.Index(ln, "NATS-Leader-Election/leader.")
+				if i < 0 {
+					if innermost {
+						break
+					}
+					continue
+				}
+				innermost = false
+				f := ln[i+len("NATS-Leader-Election/leader."):]
+				if j := strings.LastIndex(f, "("); j > 0 {
+					f = f[:j]
+				}
+				if len(chain) < 6 && (len(chain) == 0 || chain[len(chain)-1] != f) {
+					chain = append(chain, f)
+				}
+			}
+			if len(chain) > 0 {
+				out[strings.Join(chain, "<")] = true
+			}
+		}
+		return out
+	}
+	a, b := find(d1), find(d2)
+	var fs []string
+	for f := range a {
+		if b[f] {
+			fs = append(fs, f)
+		}
+	}
+	sortStrings(fs)
+	return fs
 }
 
 func sortStrings(a []string) {
